@@ -2,12 +2,13 @@ import LyModel.XPath.Canon
 import LyModel.XPath.LemmasLex
 import LyModel.XPath.LemmasTok
 import LyModel.XPath.LemmasParse
+import LyModel.XPath.LemmasParseA
 /-!
 The tokenizer on canonical texts: `lex (detok ts)` gives back `ts` for the token lists `Render.rtoks` produces.
 `Seg p ts q`: from a loop state whose operator context is `p` (if given), the text of `ts` is consumed token by token,
 the tokens stored have the kinds and texts of `ts`, and the operator context afterwards is `q` (if given).
 -/
-namespace LyModel.XPath.LemmasLexRt
+namespace LyModel.XPath.LemmasLexRtA
 open LyModel LyModel.Generated LyModel.XPath.Lex LyModel.XPath.Parse LyModel.XPath.Render LyModel.XPath.Canon
 open LyModel.XPath.LemmasLex
 
@@ -58,10 +59,13 @@ theorem lexLoop_of_reach {a c : St} (h : Reach a c) (hc : c.rest = []) (ha : a.r
 /-! ### segments -/
 
 /-- no leading white space -/
-def NW (b : Bytes) : Prop := wsLen b = 0
+def NW (b : Bytes) : Prop := wsLen b = 0 ∧ b.head? ≠ some 0x3a
 
-theorem NW.nil : NW [] := rfl
-theorem NW.cons {c : UInt8} {r : Bytes} (h : Path.isWs c = false) : NW (c :: r) := by simp [NW, wsLen, h]
+theorem NW.nil : NW [] := ⟨rfl, by simp⟩
+theorem NW.cons {c : UInt8} {r : Bytes} (h : Path.isWs c = false) (h2 : c ≠ 0x3a) : NW (c :: r) := ⟨by simp [wsLen, h], by simp [h2]⟩
+
+theorem identStart_ne_colon {c : UInt8} (hc : Path.IsIdentStart c) : c ≠ 0x3a := by
+  unfold Path.IsIdentStart at hc; intro e; subst e; revert hc; decide
 
 def ctxOf (st : St) : Bool := operCtx st.acc
 def CtxIs (p : Option Bool) (st : St) : Prop := ∀ b, p = some b → ctxOf st = b
@@ -162,7 +166,7 @@ theorem ws_cases {w : UInt8} (h : Path.isWs w = true) : w = 0x20 ∨ w = 0x9 ∨
   simpa [Path.isWs, or_assoc] using h
 
 /-- one token stored by one iteration, whatever blank string follows it -/
-theorem seg_push (k : TK) (tx : Bytes) (htx : ∃ c r, tx = c :: r ∧ Path.isWs c = false) (hk : k ≠ .axisname ∧ k ≠ .dcolon)
+theorem seg_push (k : TK) (tx : Bytes) (htx : ∃ c r, tx = c :: r ∧ Path.isWs c = false ∧ c ≠ 0x3a) (hk : k ≠ .axisname ∧ k ≠ .dcolon)
     (p : Option Bool)
     (hstep : ∀ (st : St) (w : UInt8) (more : Bytes), Path.isWs w = true → st.rest = tx ++ w :: more → CtxIs p st →
       lexStep st = .ok (st.push k tx.length)) :
@@ -175,16 +179,16 @@ theorem seg_push (k : TK) (tx : Bytes) (htx : ∃ c r, tx = c :: r ∧ Path.isWs
   have hd : ∀ bs, detokW [(k, tx)] bs = tx ++ blank1 bs := by intro bs; rw [detokW_cons, htt]; simp [detokW]
   refine ⟨?_, ?_⟩
   · intro bs more _ _
-    obtain ⟨c, r, rfl, hc⟩ := htx
+    obtain ⟨c, r, rfl, hc, hc2⟩ := htx
     rw [hd]
-    exact NW.cons hc
+    exact NW.cons hc hc2
   · intro st bs more hb hr hm hp
     rw [hd] at hr
     obtain ⟨w, b', hbw, hw, hb'⟩ := Blank.shape (blank1_ok hb)
     have hr' : st.rest = tx ++ w :: (b' ++ more) := by rw [hr, hbw]; simp
     have hs := hstep st w _ hw hr' hp
     have hrest : (st.push k tx.length).rest = (w :: b') ++ more := by simp [St.push, hr']
-    have s1 := iter_blank hs hrest (by intro c hc; simp at hc; rcases hc with rfl | hc; exact hw; exact hb' c hc) hm
+    have s1 := iter_blank hs hrest (by intro c hc; simp at hc; rcases hc with rfl | hc; exact hw; exact hb' c hc) hm.1
     refine ⟨_, Reach.single s1, rfl, ?_, ?_⟩
     · simp [St.push, ptOf, hr']
     · intro b hb
@@ -194,23 +198,23 @@ theorem seg_push (k : TK) (tx : Bytes) (htx : ∃ c r, tx = c :: r ∧ Path.isWs
 /-! ### the single tokens -/
 
 theorem seg_par2 : Seg none [tPar2] (some true) :=
-  seg_push .par2 [0x29] ⟨_, _, rfl, by decide⟩ ⟨by decide, by decide⟩ none
+  seg_push .par2 [0x29] ⟨_, _, rfl, by decide, by decide⟩ ⟨by decide, by decide⟩ none
     (fun st w more hw hr _ => by simp [lexStep, hr, lexChar])
 theorem seg_brack1 : Seg none [tBrack1] (some false) :=
-  seg_push .brack1 [0x5b] ⟨_, _, rfl, by decide⟩ ⟨by decide, by decide⟩ none
+  seg_push .brack1 [0x5b] ⟨_, _, rfl, by decide, by decide⟩ ⟨by decide, by decide⟩ none
     (fun st w more hw hr _ => by simp [lexStep, hr, lexChar])
 theorem seg_brack2 : Seg none [tBrack2] (some true) :=
-  seg_push .brack2 [0x5d] ⟨_, _, rfl, by decide⟩ ⟨by decide, by decide⟩ none
+  seg_push .brack2 [0x5d] ⟨_, _, rfl, by decide, by decide⟩ ⟨by decide, by decide⟩ none
     (fun st w more hw hr _ => by simp [lexStep, hr, lexChar])
 theorem seg_comma : Seg none [tComma] (some false) :=
-  seg_push .comma [0x2c] ⟨_, _, rfl, by decide⟩ ⟨by decide, by decide⟩ none
+  seg_push .comma [0x2c] ⟨_, _, rfl, by decide, by decide⟩ ⟨by decide, by decide⟩ none
     (fun st w more hw hr _ => by simp [lexStep, hr, lexChar, lexChar2])
 theorem seg_slash : Seg none [tSlash] (some false) :=
-  seg_push .operPath [0x2f] ⟨_, _, rfl, by decide⟩ ⟨by decide, by decide⟩ none
+  seg_push .operPath [0x2f] ⟨_, _, rfl, by decide, by decide⟩ ⟨by decide, by decide⟩ none
     (fun st w more hw hr _ => by
       rcases ws_cases hw with rfl | rfl | rfl | rfl <;> simp [lexStep, hr, lexChar, lexChar2, lexChar3, Path.isDigit])
 theorem seg_minus : Seg none [tMinus] (some false) :=
-  seg_push .operMath [0x2d] ⟨_, _, rfl, by decide⟩ ⟨by decide, by decide⟩ none
+  seg_push .operMath [0x2d] ⟨_, _, rfl, by decide, by decide⟩ ⟨by decide, by decide⟩ none
     (fun st w more hw hr _ => by simp [lexStep, hr, lexChar, lexChar2, lexChar3, lexChar4, Path.isDigit])
 
 theorem reclassify_id {st : St} (h : operCtx st.acc = false) : reclassify st = st := by
@@ -228,7 +232,7 @@ theorem reclassify_id {st : St} (h : operCtx st.acc = false) : reclassify st = s
     simp [this]
 
 theorem seg_par1 : Seg (some false) [tPar1] (some false) :=
-  seg_push .par1 [0x28] ⟨_, _, rfl, by decide⟩ ⟨by decide, by decide⟩ (some false)
+  seg_push .par1 [0x28] ⟨_, _, rfl, by decide, by decide⟩ ⟨by decide, by decide⟩ (some false)
     (fun st w more hw hr hp => by
       have : operCtx st.acc = false := hp false rfl
       simp [lexStep, hr, lexChar, reclassify_id this])
@@ -244,7 +248,7 @@ theorem seg_lit (s : Bytes) (hw : wf (.lit s) = true) : Seg none [(.literal, quo
       · exact ⟨by first | trivial | exact Or.inr rfl, by simpa using hw⟩
     · simp only [h, Bool.false_eq_true, if_false]
       exact ⟨by first | trivial | exact Or.inl rfl, by simpa using h⟩
-  refine seg_push .literal _ ⟨_, _, rfl, by rcases hq.1 with h | h <;> rw [h] <;> decide⟩ ⟨by decide, by decide⟩ none ?_
+  refine seg_push .literal _ ⟨_, _, rfl, by rcases hq.1 with h | h <;> rw [h] <;> decide, by rcases hq.1 with h | h <;> rw [h] <;> decide⟩ ⟨by decide, by decide⟩ none ?_
   intro st w more hw hr _
   have hsl := Path.scanLit_spec (quoteFor s) s (w :: more) hq.2
   have hr' : st.rest = quoteFor s :: (s ++ quoteFor s :: w :: more) := by rw [hr]; simp
@@ -331,7 +335,7 @@ theorem seg_num (m sc : Nat) : Seg none [(.number, numText m sc)] (some true) :=
     | nil => exact absurd rfl hne
     | cons c a' => exact ⟨c, a', rfl⟩
   have hc : Path.isDigit c = true := ha c (by simp)
-  refine seg_push .number _ ⟨c, a' ++ b, by rw [hab]; simp, digit_not_ws hc⟩ ⟨by decide, by decide⟩ none ?_
+  refine seg_push .number _ ⟨c, a' ++ b, by rw [hab]; simp, digit_not_ws hc, by intro e; subst e; revert hc; decide⟩ ⟨by decide, by decide⟩ none ?_
   intro st w more hw hr _
   have hsn := scanNum_numText m sc w hw more
   have hr' : st.rest = c :: (a' ++ b ++ w :: more) := by rw [hr, hab]; simp
@@ -457,25 +461,25 @@ theorem operName_false (st : St) (nm : Bytes) (h : startsWith st.rest nm = false
 theorem seg_op (op : BinOp) : Seg (if opNeedsCtx op then some true else none) [opTok op] (some false) := by
   cases op
   case or =>
-    exact seg_push .operLog [0x6f, 0x72] ⟨_, _, rfl, by decide⟩ ⟨by decide, by decide⟩ (some true)
+    exact seg_push .operLog [0x6f, 0x72] ⟨_, _, rfl, by decide, by decide⟩ ⟨by decide, by decide⟩ (some true)
       (fun st w more hw hr hp => by
         have : operCtx st.acc = true := hp true rfl
         have h_or : operName st [0x6f, 0x72] = true := operName_true st _ w hw more hr (by decide)
         simp [lexStep, hr, lexChar, lexChar2, lexChar3, lexChar4, Path.isDigit, this, lexOper, startsWith, h_or])
   case and =>
-    exact seg_push .operLog [0x61, 0x6e, 0x64] ⟨_, _, rfl, by decide⟩ ⟨by decide, by decide⟩ (some true)
+    exact seg_push .operLog [0x61, 0x6e, 0x64] ⟨_, _, rfl, by decide, by decide⟩ ⟨by decide, by decide⟩ (some true)
       (fun st w more hw hr hp => by
         have : operCtx st.acc = true := hp true rfl
         have h_or : operName st [0x6f, 0x72] = false := operName_false st _ (by simp [startsWith, hr, List.isPrefixOf])
         have h_and : operName st [0x61, 0x6e, 0x64] = true := operName_true st _ w hw more hr (by decide)
         simp [lexStep, hr, lexChar, lexChar2, lexChar3, lexChar4, Path.isDigit, this, lexOper, startsWith, h_or, h_and])
   case mul =>
-    exact seg_push .operMath [0x2a] ⟨_, _, rfl, by decide⟩ ⟨by decide, by decide⟩ (some true)
+    exact seg_push .operMath [0x2a] ⟨_, _, rfl, by decide, by decide⟩ ⟨by decide, by decide⟩ (some true)
       (fun st w more hw hr hp => by
         have : operCtx st.acc = true := hp true rfl
         simp [lexStep, hr, lexChar, lexChar2, lexChar3, lexChar4, Path.isDigit, this, lexOper, startsWith])
   case div =>
-    exact seg_push .operMath [0x64, 0x69, 0x76] ⟨_, _, rfl, by decide⟩ ⟨by decide, by decide⟩ (some true)
+    exact seg_push .operMath [0x64, 0x69, 0x76] ⟨_, _, rfl, by decide, by decide⟩ ⟨by decide, by decide⟩ (some true)
       (fun st w more hw hr hp => by
         have : operCtx st.acc = true := hp true rfl
         have h_or : operName st [0x6f, 0x72] = false := operName_false st _ (by simp [startsWith, hr, List.isPrefixOf])
@@ -484,7 +488,7 @@ theorem seg_op (op : BinOp) : Seg (if opNeedsCtx op then some true else none) [o
         have h_div : operName st [0x64, 0x69, 0x76] = true := operName_true st _ w hw more hr (by decide)
         simp [lexStep, hr, lexChar, lexChar2, lexChar3, lexChar4, Path.isDigit, this, lexOper, startsWith, h_or, h_and, h_mod, h_div])
   case mod =>
-    exact seg_push .operMath [0x6d, 0x6f, 0x64] ⟨_, _, rfl, by decide⟩ ⟨by decide, by decide⟩ (some true)
+    exact seg_push .operMath [0x6d, 0x6f, 0x64] ⟨_, _, rfl, by decide, by decide⟩ ⟨by decide, by decide⟩ (some true)
       (fun st w more hw hr hp => by
         have : operCtx st.acc = true := hp true rfl
         have h_or : operName st [0x6f, 0x72] = false := operName_false st _ (by simp [startsWith, hr, List.isPrefixOf])
@@ -492,33 +496,33 @@ theorem seg_op (op : BinOp) : Seg (if opNeedsCtx op then some true else none) [o
         have h_mod : operName st [0x6d, 0x6f, 0x64] = true := operName_true st _ w hw more hr (by decide)
         simp [lexStep, hr, lexChar, lexChar2, lexChar3, lexChar4, Path.isDigit, this, lexOper, startsWith, h_or, h_and, h_mod])
   case eq =>
-    exact seg_push .operEqual [0x3d] ⟨_, _, rfl, by decide⟩ ⟨by decide, by decide⟩ none
+    exact seg_push .operEqual [0x3d] ⟨_, _, rfl, by decide, by decide⟩ ⟨by decide, by decide⟩ none
       (fun st w more hw hr _ => by simp [lexStep, hr, lexChar, lexChar2, lexChar3, lexChar4, Path.isDigit])
   case ne =>
-    exact seg_push .operNequal [0x21, 0x3d] ⟨_, _, rfl, by decide⟩ ⟨by decide, by decide⟩ none
+    exact seg_push .operNequal [0x21, 0x3d] ⟨_, _, rfl, by decide, by decide⟩ ⟨by decide, by decide⟩ none
       (fun st w more hw hr _ => by simp [lexStep, hr, lexChar, lexChar2, lexChar3, lexChar4, Path.isDigit])
   case lt =>
-    exact seg_push .operComp [0x3c] ⟨_, _, rfl, by decide⟩ ⟨by decide, by decide⟩ none
+    exact seg_push .operComp [0x3c] ⟨_, _, rfl, by decide, by decide⟩ ⟨by decide, by decide⟩ none
       (fun st w more hw hr _ => by
         rcases ws_cases hw with rfl | rfl | rfl | rfl <;> simp [lexStep, hr, lexChar, lexChar2, lexChar3, lexChar4, Path.isDigit])
   case le =>
-    exact seg_push .operComp [0x3c, 0x3d] ⟨_, _, rfl, by decide⟩ ⟨by decide, by decide⟩ none
+    exact seg_push .operComp [0x3c, 0x3d] ⟨_, _, rfl, by decide, by decide⟩ ⟨by decide, by decide⟩ none
       (fun st w more hw hr _ => by simp [lexStep, hr, lexChar, lexChar2, lexChar3, lexChar4, Path.isDigit])
   case gt =>
-    exact seg_push .operComp [0x3e] ⟨_, _, rfl, by decide⟩ ⟨by decide, by decide⟩ none
+    exact seg_push .operComp [0x3e] ⟨_, _, rfl, by decide, by decide⟩ ⟨by decide, by decide⟩ none
       (fun st w more hw hr _ => by
         rcases ws_cases hw with rfl | rfl | rfl | rfl <;> simp [lexStep, hr, lexChar, lexChar2, lexChar3, lexChar4, Path.isDigit])
   case ge =>
-    exact seg_push .operComp [0x3e, 0x3d] ⟨_, _, rfl, by decide⟩ ⟨by decide, by decide⟩ none
+    exact seg_push .operComp [0x3e, 0x3d] ⟨_, _, rfl, by decide, by decide⟩ ⟨by decide, by decide⟩ none
       (fun st w more hw hr _ => by simp [lexStep, hr, lexChar, lexChar2, lexChar3, lexChar4, Path.isDigit])
   case add =>
-    exact seg_push .operMath [0x2b] ⟨_, _, rfl, by decide⟩ ⟨by decide, by decide⟩ none
+    exact seg_push .operMath [0x2b] ⟨_, _, rfl, by decide, by decide⟩ ⟨by decide, by decide⟩ none
       (fun st w more hw hr _ => by simp [lexStep, hr, lexChar, lexChar2, lexChar3, lexChar4, Path.isDigit])
   case sub =>
-    exact seg_push .operMath [0x2d] ⟨_, _, rfl, by decide⟩ ⟨by decide, by decide⟩ none
+    exact seg_push .operMath [0x2d] ⟨_, _, rfl, by decide, by decide⟩ ⟨by decide, by decide⟩ none
       (fun st w more hw hr _ => by simp [lexStep, hr, lexChar, lexChar2, lexChar3, lexChar4, Path.isDigit])
   case union =>
-    exact seg_push .operUni [0x7c] ⟨_, _, rfl, by decide⟩ ⟨by decide, by decide⟩ none
+    exact seg_push .operUni [0x7c] ⟨_, _, rfl, by decide, by decide⟩ ⟨by decide, by decide⟩ none
       (fun st w more hw hr _ => by simp [lexStep, hr, lexChar, lexChar2, lexChar3, lexChar4, Path.isDigit])
 
 theorem namePart_ident {nm : Bytes} (hn : Path.IsIdent nm) (rest : Bytes) (hr : Stop rest) :
@@ -535,7 +539,7 @@ theorem namePart_ident {nm : Bytes} (hn : Path.IsIdent nm) (rest : Bytes) (hr : 
     · exact hnc
 
 theorem wsLen_space {more : Bytes} (hm : NW more) : wsLen (0x20 :: more) = 1 := by
-  have : wsLen more = 0 := hm
+  have : wsLen more = 0 := hm.1
   simp [wsLen, Path.isWs, this]
 
 theorem wsLen_space_then {c : UInt8} (r : Bytes) (hc : Path.isWs c = false) : wsLen (0x20 :: c :: r) = 1 := by
@@ -616,7 +620,7 @@ theorem seg_fn (name : String) (n : Nat) (h : fnOk name n = true) :
   refine ⟨?_, ?_⟩
   · intro bs more _ _
     rw [hd, hct]
-    exact NW.cons (identStart_not_ws hc)
+    exact NW.cons (identStart_not_ws hc) (identStart_ne_colon hc)
   · intro st bs more hb hr hm hp
     rw [hd] at hr
     obtain ⟨w1, r1, e1, hw1, hr1⟩ := Blank.shape (blank1_ok hb)
@@ -642,7 +646,7 @@ theorem seg_fn (name : String) (n : Nat) (h : fnOk name n = true) :
     have hnt' : fb ∉ XpConsts.nodeTypeNames := by simpa using hnt
     have h2 : lexStep { acc := ⟨.nametest, st.pos, fb⟩ :: st.acc, ntype := true, func := true, pos := st.pos + fb.length + (w1 :: r1).length, rest := 0x28 :: (w2 :: r2 ++ more) } = .ok { acc := ⟨.par1, st.pos + fb.length + (w1 :: r1).length, [0x28]⟩ :: ⟨.funcname, st.pos, fb⟩ :: st.acc, ntype := false, func := false, pos := st.pos + fb.length + (w1 :: r1).length + 1, rest := (w2 :: r2) ++ more } := by
       simp [lexStep, lexChar, reclassify, hnt', St.push]
-    have s2 := iter_blank h2 rfl (allws_cons hw2 hr2) hm
+    have s2 := iter_blank h2 rfl (allws_cons hw2 hr2) hm.1
     refine ⟨_, Reach.step s1 (Reach.single s2), rfl, ?_, ?_⟩
     · simp [ptOf, tPar1]
     · intro b hb
@@ -698,7 +702,7 @@ theorem seg_step_name (ax : Axis) (tx : Bytes) (htx : ∃ c r, tx = c :: r ∧ P
   refine ⟨?_, ?_⟩
   · intro bs more _ _
     rw [hd, hct0]
-    exact NW.cons (identStart_not_ws hc0)
+    exact NW.cons (identStart_not_ws hc0) (identStart_ne_colon hc0)
   · intro st bs more hb hr hm hp
     rw [hd] at hr
     obtain ⟨w, b', e1, hw, hb'⟩ := Blank.shape (blank1_ok (Blanks.drop hb 2))
@@ -715,7 +719,7 @@ theorem seg_step_name (ax : Axis) (tx : Bytes) (htx : ∃ c r, tx = c :: r ∧ P
       simp only [hnp']
       rw [hnt]
       rfl
-    have s1 := iter_blank h1 rfl (allws_cons hw hb') hm
+    have s1 := iter_blank h1 rfl (allws_cons hw hb') hm.1
     refine ⟨_, Reach.single s1, rfl, ?_, ?_⟩
     · simp [ptOf, tDcolon]
     · intro b hb
@@ -735,7 +739,7 @@ theorem seg_step_nodetype (ax : Axis) (nt : Bytes) (hid : Path.IsIdent nt) (hnt 
   refine ⟨?_, ?_⟩
   · intro bs more _ _
     rw [hd, hct0]
-    exact NW.cons (identStart_not_ws hc0)
+    exact NW.cons (identStart_not_ws hc0) (identStart_ne_colon hc0)
   · intro st bs more hb hr hm hp
     rw [hd] at hr
     obtain ⟨w1, r1, e1, hw1, hr1⟩ := Blank.shape (blank1_ok (Blanks.drop hb 2))
@@ -763,7 +767,7 @@ theorem seg_step_nodetype (ax : Axis) (nt : Bytes) (hid : Path.IsIdent nt) (hnt 
     have h3 : lexStep { acc := ⟨.par1, st.pos + (axisBytes ax).length + 2 + nt.length + (w1 :: r1).length, [0x28]⟩ :: ⟨.nodetype, st.pos + (axisBytes ax).length + 2, nt⟩ :: ⟨.dcolon, st.pos + (axisBytes ax).length, [0x3a, 0x3a]⟩ :: ⟨.axisname, st.pos, axisBytes ax⟩ :: st.acc, ntype := false, func := false, pos := st.pos + (axisBytes ax).length + 2 + nt.length + (w1 :: r1).length + 1 + (w2 :: r2).length, rest := 0x29 :: (w3 :: r3 ++ more) } =
         .ok { acc := ⟨.par2, st.pos + (axisBytes ax).length + 2 + nt.length + (w1 :: r1).length + 1 + (w2 :: r2).length, [0x29]⟩ :: ⟨.par1, st.pos + (axisBytes ax).length + 2 + nt.length + (w1 :: r1).length, [0x28]⟩ :: ⟨.nodetype, st.pos + (axisBytes ax).length + 2, nt⟩ :: ⟨.dcolon, st.pos + (axisBytes ax).length, [0x3a, 0x3a]⟩ :: ⟨.axisname, st.pos, axisBytes ax⟩ :: st.acc, ntype := false, func := false, pos := st.pos + (axisBytes ax).length + 2 + nt.length + (w1 :: r1).length + 1 + (w2 :: r2).length + 1, rest := (w3 :: r3) ++ more } := by
       simp [lexStep, lexChar, St.push]
-    have s3 := iter_blank h3 rfl (allws_cons hw3 hr3) hm
+    have s3 := iter_blank h3 rfl (allws_cons hw3 hr3) hm.1
     refine ⟨_, Reach.step s1 (Reach.step s2 (Reach.single s3)), rfl, ?_, ?_⟩
     · simp [ptOf, tDcolon, tPar1, tPar2]
     · intro b hb
@@ -841,6 +845,264 @@ theorem seg_step_test (ax : Axis) (t : Test) (ht : testOk t = true) :
   | comment => exact seg_step_nodetype ax _ (by decide) (by decide)
 
 
+/-! ### abbreviated steps -/
+
+theorem seg_dot : Seg none [tDot] (some true) :=
+  seg_push .dot [0x2e] ⟨_, _, rfl, by decide, by decide⟩ ⟨by decide, by decide⟩ none
+    (fun st w more hw hr _ => by
+      rcases ws_cases hw with rfl | rfl | rfl | rfl <;> simp [lexStep, hr, lexChar, lexChar2, Path.isDigit])
+theorem seg_ddot : Seg none [tDdot] (some true) :=
+  seg_push .ddot [0x2e, 0x2e] ⟨_, _, rfl, by decide, by decide⟩ ⟨by decide, by decide⟩ none
+    (fun st w more hw hr _ => by simp [lexStep, hr, lexChar, lexChar2])
+theorem seg_at : Seg none [tAt] (some false) :=
+  seg_push .at [0x40] ⟨_, _, rfl, by decide, by decide⟩ ⟨by decide, by decide⟩ none
+    (fun st w more hw hr _ => by simp [lexStep, hr, lexChar, lexChar2])
+
+/-- after a name, blanks and then something that does not start with `:`, no `::` is found -/
+theorem no_axis_after_blank' (w : UInt8) (b more : Bytes) (hw : Path.isWs w = true)
+    (hb : ∀ x ∈ b, Path.isWs x = true) (hm : NW more) :
+    startsWith ((w :: (b ++ more)).drop (axisGap (w :: (b ++ more)))) [0x3a, 0x3a] = false := by
+  have hwb : (0x3a == w) = false := by simpa using fun h => ws_ne_colon hw h.symm
+  have hl : wsLen (w :: (b ++ more)) = (w :: b).length := by
+    have := wsLen_lead (w :: b) more (allws_cons hw hb) hm.1
+    simpa using this
+  unfold axisGap; split
+  · rw [hl]
+    have : (w :: (b ++ more)).drop (w :: b).length = more := by
+      have e : w :: (b ++ more) = (w :: b) ++ more := by simp
+      rw [e, List.drop_left' rfl]
+    rw [this]
+    cases more with
+    | nil => simp [startsWith, List.isPrefixOf]
+    | cons c r =>
+      have : c ≠ 0x3a := by simpa using hm.2
+      have hcb : (0x3a == c) = false := by simpa using fun h => this h.symm
+      simp [startsWith, List.isPrefixOf, hcb]
+  · simp [startsWith, List.isPrefixOf, hwb]
+
+theorem colon_noaxis (c : UInt8) (r : Bytes) (hc : c ≠ 0x3a) :
+    startsWith ((0x3a :: c :: r).drop (axisGap (0x3a :: c :: r))) [0x3a, 0x3a] = false := by
+  have hg : axisGap (0x3a :: c :: r) = 0 := axisGap_nonws (by simp [wsLen, Path.isWs])
+  have hcb : (0x3a == c) = false := by simpa using fun h => hc h.symm
+  simp [hg, startsWith, List.isPrefixOf, hcb]
+
+/-- a name test `tx` that is followed by blanks: the name-test branch (no axis) measures it and stores one NameTest -/
+theorem name_lex (t : Test) (ht : testOk t = true) (tx : Bytes) (hrt : rtest t = [(.nametest, tx)]) (b : Bool) :
+    ∀ (st2 : St) (w : UInt8) (b' more : Bytes), Path.isWs w = true → (∀ x ∈ b', Path.isWs x = true) → NW more →
+      st2.rest = tx ++ w :: (b' ++ more) →
+      ∃ n2 f1 f2, namePart st2.rest = some n2 ∧
+        startsWith (st2.rest.drop (n2 + axisGap (st2.rest.drop n2))) [0x3a, 0x3a] = false ∧
+        nameTail st2 n2 b = .ok { acc := ⟨.nametest, st2.pos, tx⟩ :: st2.acc, ntype := f1, func := f2, pos := st2.pos + tx.length, rest := w :: (b' ++ more) } := by
+  intro st2 w b' more hw hb' hm hr
+  cases t with
+  | name pfx loc =>
+    cases pfx with
+    | none =>
+      have hl : Path.IsIdent loc := isName_ident (by simpa [testOk] using ht)
+      obtain rfl : loc = tx := by simpa [rtest] using hrt
+      have hdrop : st2.rest.drop loc.length = w :: (b' ++ more) := by rw [hr]; simp
+      refine ⟨loc.length, true, !b, by rw [hr]; exact namePart_ident hl _ (stop_ws hw _), ?_, ?_⟩
+      · rw [← List.drop_drop, hdrop]; exact no_axis_after_blank' w b' more hw hb' hm
+      · rw [nameTail_ident_space st2 hl w hw _ hr b]
+    | some q =>
+      have hq : isName q = true ∧ isName loc = true := by simpa [testOk] using ht
+      have hqi := isName_ident hq.1
+      have hli := isName_ident hq.2
+      obtain rfl : q ++ 0x3a :: loc = tx := by simpa [rtest] using hrt
+      have hr' : st2.rest = q ++ 0x3a :: (loc ++ w :: (b' ++ more)) := by rw [hr]; simp
+      have hdrop : st2.rest.drop q.length = 0x3a :: (loc ++ w :: (b' ++ more)) := by rw [hr']; simp
+      obtain ⟨c, t, hct, hc⟩ := ident_head hli
+      have h42 : c ≠ 0x2a := by
+        have := (Path.identStart_ne hc).2.2.2.2.2.2.2.2.2.2.2.2.2.2.2.2.2.2.2
+        simpa using this
+      refine ⟨q.length, false, false, by rw [hr']; exact namePart_ident hqi _ (stop_colon _), ?_, ?_⟩
+      · rw [← List.drop_drop, hdrop, hct]; exact colon_noaxis c _ (identStart_ne_colon hc)
+      · have hnc := ncname_stop hli (w :: (b' ++ more)) (stop_ws hw _)
+        have htake : st2.rest.take (q.length + 1 + loc.length) = q ++ 0x3a :: loc := by
+          rw [hr']
+          have : q ++ 0x3a :: (loc ++ w :: (b' ++ more)) = (q ++ 0x3a :: loc) ++ w :: (b' ++ more) := by simp
+          rw [this, List.take_left' (by simp; omega)]
+        have hdrop2 : st2.rest.drop (q.length + 1 + loc.length) = w :: (b' ++ more) := by
+          rw [hr']
+          have : q ++ 0x3a :: (loc ++ w :: (b' ++ more)) = (q ++ 0x3a :: loc) ++ w :: (b' ++ more) := by simp
+          rw [this, List.drop_left' (by simp; omega)]
+        have hss : starStop st2 = false := starStop_ident hqi hr'
+        simp only [nameTail, hdrop, hss, Bool.false_eq_true, if_false]
+        rw [hct] at hnc ⊢
+        simp only [List.cons_append]
+        split
+        · next heq => simp only [List.cons.injEq] at heq; exact absurd heq.1 h42
+        · simp only [List.cons_append] at hnc
+          simp only [hnc]
+          simp [St.push, ← hct, htake, hdrop2]
+          omega
+  | any =>
+    obtain rfl : [0x2a] = tx := by simpa [rtest] using hrt
+    have hdrop : st2.rest.drop 1 = w :: (b' ++ more) := by rw [hr]; simp
+    refine ⟨1, false, false, by simp [hr, namePart], ?_, ?_⟩
+    · rw [← List.drop_drop, hdrop]; exact no_axis_after_blank' w b' more hw hb' hm
+    · rcases ws_cases hw with rfl | rfl | rfl | rfl <;> simp [nameTail, namePlain, hr, St.push]
+  | anyIn q =>
+    have hqi := isName_ident (by simpa [testOk] using ht : isName q = true)
+    obtain rfl : q ++ [0x3a, 0x2a] = tx := by simpa [rtest] using hrt
+    have hr' : st2.rest = q ++ 0x3a :: 0x2a :: w :: (b' ++ more) := by rw [hr]; simp
+    have hdrop : st2.rest.drop q.length = 0x3a :: 0x2a :: w :: (b' ++ more) := by rw [hr']; simp
+    have htake : st2.rest.take (q.length + 2) = q ++ [0x3a, 0x2a] := by
+      rw [hr]; rw [List.take_left' (by simp)]
+    have hdrop2 : st2.rest.drop (q.length + 2) = w :: (b' ++ more) := by
+      rw [hr]; rw [List.drop_left' (by simp)]
+    have hss : starStop st2 = false := starStop_ident hqi hr'
+    refine ⟨q.length, false, false, by rw [hr']; exact namePart_ident hqi _ (stop_colon _), ?_, ?_⟩
+    · rw [← List.drop_drop, hdrop]; exact colon_noaxis 0x2a _ (by decide)
+    · simp [nameTail, hdrop, hss, St.push, htake, hdrop2]
+  | node => simp [rtest] at hrt
+  | text => simp [rtest] at hrt
+  | comment => simp [rtest] at hrt
+
+theorem lexChar_star' (st : St) (r : Bytes) : lexChar st 0x2a r = if operCtx st.acc then lexOper st else lexName st := by
+  simp [lexChar, lexChar2, lexChar3, lexChar4, Path.isDigit]
+
+/-- a name test without an axis (abbreviated `child::`, or after `@`) -/
+theorem seg_name_bare (t : Test) (ht : testOk t = true) (tx : Bytes) (hrt : rtest t = [(.nametest, tx)]) :
+    Seg (some false) [(.nametest, tx)] (some true) := by
+  have hhead : ∃ c r, tx = c :: r ∧ (Path.IsIdentStart c ∨ c = 0x2a) := by
+    cases t with
+    | name pfx loc =>
+      cases pfx with
+      | none =>
+        obtain rfl : loc = tx := by simpa [rtest] using hrt
+        obtain ⟨c, r, h1, h2⟩ := ident_head (isName_ident (by simpa [testOk] using ht)); exact ⟨c, r, h1, Or.inl h2⟩
+      | some q =>
+        obtain rfl : q ++ 0x3a :: loc = tx := by simpa [rtest] using hrt
+        have hq : isName q = true ∧ isName loc = true := by simpa [testOk] using ht
+        obtain ⟨c, r, h1, h2⟩ := ident_head (isName_ident hq.1); exact ⟨c, r ++ 0x3a :: loc, by simp [h1], Or.inl h2⟩
+    | any => exact ⟨0x2a, [], (by simpa [rtest] using hrt : [0x2a] = tx).symm, Or.inr rfl⟩
+    | anyIn q =>
+      obtain rfl : q ++ [0x3a, 0x2a] = tx := by simpa [rtest] using hrt
+      obtain ⟨c, r, h1, h2⟩ := ident_head (isName_ident (by simpa [testOk] using ht : isName q = true))
+      exact ⟨c, r ++ [0x3a, 0x2a], by simp [h1], Or.inl h2⟩
+    | node => simp [rtest] at hrt
+    | text => simp [rtest] at hrt
+    | comment => simp [rtest] at hrt
+  obtain ⟨c, r, hct, hc⟩ := hhead
+  have hcws : Path.isWs c = false ∧ c ≠ 0x3a := by
+    rcases hc with hc | rfl
+    · exact ⟨identStart_not_ws hc, identStart_ne_colon hc⟩
+    · exact ⟨by decide, by decide⟩
+  have hd : ∀ bs more, detokW [(.nametest, tx)] bs ++ more = tx ++ (blank1 bs ++ more) := by
+    intro bs more; simp [detokW_cons, detokW, tokTextW]
+  refine ⟨?_, ?_⟩
+  · intro bs more _ _
+    rw [hd, hct]
+    exact NW.cons hcws.1 hcws.2
+  · intro st bs more hb hr hm hp
+    rw [hd] at hr
+    obtain ⟨w, b', e1, hw, hb'⟩ := Blank.shape (blank1_ok hb)
+    rw [e1] at hr
+    have hr' : st.rest = tx ++ w :: (b' ++ more) := by rw [hr]; simp
+    have hctx : operCtx st.acc = false := hp false rfl
+    obtain ⟨n2, f1, f2, hnp, hsw, hnt⟩ := name_lex t ht tx hrt false st w b' more hw hb' hm hr'
+    have h1 : lexStep st = .ok { acc := ⟨.nametest, st.pos, tx⟩ :: st.acc, ntype := f1, func := f2, pos := st.pos + tx.length, rest := (w :: b') ++ more } := by
+      have e : lexStep st = lexChar st c (r ++ w :: (b' ++ more)) := by simp [lexStep, hr', hct]
+      have e2 : lexChar st c (r ++ w :: (b' ++ more)) = lexName st := by
+        rcases hc with hc | rfl
+        · rw [lexChar_ident st _ hc, hctx]; rfl
+        · rw [lexChar_star', hctx]; rfl
+      rw [e, e2]
+      simp only [lexName, hnp, hsw, Bool.false_eq_true, if_false]
+      rw [hnt]; rfl
+    have s1 := iter_blank h1 rfl (allws_cons hw hb') hm.1
+    refine ⟨_, Reach.single s1, rfl, ?_, ?_⟩
+    · simp [ptOf]
+    · intro b hb
+      cases hb
+      exact ctx_of_acc (k := .nametest) (tx := tx) (r := st.acc.map ptOf) (by simp [ptOf])
+
+/-- `node ( )`, `text ( )`, `comment ( )` without an axis -/
+theorem seg_nodetype_bare (nt : Bytes) (hid : Path.IsIdent nt) (hnt : nt ∈ XpConsts.nodeTypeNames) :
+    Seg (some false) [(.nodetype, nt), tPar1, tPar2] (some true) := by
+  have hd : ∀ bs more, detokW [(.nodetype, nt), tPar1, tPar2] bs ++ more =
+      nt ++ (blank1 bs ++ 0x28 :: (blank1 (bs.drop 1) ++ 0x29 :: (blank1 (bs.drop 2) ++ more))) := by
+    intro bs more; simp [detokW_cons, detokW, tokTextW, tPar1, tPar2]
+  obtain ⟨c, t, hct, hc⟩ := ident_head hid
+  refine ⟨?_, ?_⟩
+  · intro bs more _ _
+    rw [hd, hct]
+    exact NW.cons (identStart_not_ws hc) (identStart_ne_colon hc)
+  · intro st bs more hb hr hm hp
+    rw [hd] at hr
+    obtain ⟨w1, r1, e1, hw1, hr1⟩ := Blank.shape (blank1_ok hb)
+    obtain ⟨w2, r2, e2, hw2, hr2⟩ := Blank.shape (blank1_ok (Blanks.drop hb 1))
+    obtain ⟨w3, r3, e3, hw3, hr3⟩ := Blank.shape (blank1_ok (Blanks.drop hb 2))
+    rw [e1, e2, e3] at hr
+    have hr' : st.rest = nt ++ w1 :: (r1 ++ 0x28 :: (w2 :: r2 ++ 0x29 :: (w3 :: r3 ++ more))) := by rw [hr]; simp
+    have hctx : operCtx st.acc = false := hp false rfl
+    have h1 : lexStep st = .ok { acc := ⟨.nametest, st.pos, nt⟩ :: st.acc, ntype := true, func := true, pos := st.pos + nt.length, rest := (w1 :: r1) ++ 0x28 :: (w2 :: r2 ++ 0x29 :: (w3 :: r3 ++ more)) } := by
+      have hp' := namePart_ident hid (w1 :: (r1 ++ 0x28 :: (w2 :: r2 ++ 0x29 :: (w3 :: r3 ++ more)))) (stop_ws hw1 _)
+      have hdrop : st.rest.drop nt.length = w1 :: (r1 ++ 0x28 :: (w2 :: r2 ++ 0x29 :: (w3 :: r3 ++ more))) := by rw [hr']; simp
+      have hl := nameTail_ident_space st hid w1 hw1 _ hr' false
+      have e : lexStep st = lexChar st c (t ++ w1 :: (r1 ++ 0x28 :: (w2 :: r2 ++ 0x29 :: (w3 :: r3 ++ more)))) := by simp [lexStep, hr', hct]
+      rw [e, lexChar_ident st _ hc, hctx]
+      simp only [Bool.false_eq_true, if_false, lexName]
+      rw [← hr'] at hp'
+      have hsw : startsWith (st.rest.drop (nt.length + axisGap (st.rest.drop nt.length))) [0x3a, 0x3a] = false := by
+        rw [← List.drop_drop, hdrop]; exact no_axis_after_blank w1 r1 0x28 _ hw1 hr1 (by decide) (by decide)
+      simp only [hp', hsw]
+      simpa using hl
+    have s1 := iter_blank h1 rfl (allws_cons hw1 hr1) (by simp [wsLen, Path.isWs])
+    have h2 : lexStep { acc := ⟨.nametest, st.pos, nt⟩ :: st.acc, ntype := true, func := true, pos := st.pos + nt.length + (w1 :: r1).length, rest := 0x28 :: (w2 :: r2 ++ 0x29 :: (w3 :: r3 ++ more)) } = .ok { acc := ⟨.par1, st.pos + nt.length + (w1 :: r1).length, [0x28]⟩ :: ⟨.nodetype, st.pos, nt⟩ :: st.acc, ntype := false, func := false, pos := st.pos + nt.length + (w1 :: r1).length + 1, rest := (w2 :: r2) ++ 0x29 :: (w3 :: r3 ++ more) } := by
+      simp [lexStep, lexChar, reclassify, hnt, St.push]
+    have s2 := iter_blank h2 rfl (allws_cons hw2 hr2) (by simp [wsLen, Path.isWs])
+    have h3 : lexStep { acc := ⟨.par1, st.pos + nt.length + (w1 :: r1).length, [0x28]⟩ :: ⟨.nodetype, st.pos, nt⟩ :: st.acc, ntype := false, func := false, pos := st.pos + nt.length + (w1 :: r1).length + 1 + (w2 :: r2).length, rest := 0x29 :: (w3 :: r3 ++ more) } = .ok { acc := ⟨.par2, st.pos + nt.length + (w1 :: r1).length + 1 + (w2 :: r2).length, [0x29]⟩ :: ⟨.par1, st.pos + nt.length + (w1 :: r1).length, [0x28]⟩ :: ⟨.nodetype, st.pos, nt⟩ :: st.acc, ntype := false, func := false, pos := st.pos + nt.length + (w1 :: r1).length + 1 + (w2 :: r2).length + 1, rest := (w3 :: r3) ++ more } := by
+      simp [lexStep, lexChar, St.push]
+    have s3 := iter_blank h3 rfl (allws_cons hw3 hr3) hm.1
+    refine ⟨_, Reach.step s1 (Reach.step s2 (Reach.single s3)), rfl, ?_, ?_⟩
+    · simp [ptOf, tPar1, tPar2]
+    · intro b hb
+      cases hb
+      exact ctx_of_acc (k := .par2) (tx := [0x29]) (r := tPar1 :: (.nodetype, nt) :: st.acc.map ptOf) (by simp [ptOf, tPar1])
+
+/-- a node test without an axis -/
+theorem seg_test_bare (t : Test) (ht : testOk t = true) : Seg (some false) (rtest t) (some true) := by
+  cases t with
+  | name pfx loc => cases pfx <;> exact seg_name_bare _ ht _ rfl
+  | any => exact seg_name_bare _ ht _ rfl
+  | anyIn q => exact seg_name_bare _ ht _ rfl
+  | node => exact seg_nodetype_bare _ (by decide) (by decide)
+  | text => exact seg_nodetype_bare _ (by decide) (by decide)
+  | comment => exact seg_nodetype_bare _ (by decide) (by decide)
+
+/-- the head of a step (everything but the predicates) in its abbreviated form -/
+def ahead (ax : Axis) (t : Test) (noPreds : Bool) : List PT :=
+  if ax == .self && isNodeT t && noPreds then [tDot]
+  else if ax == .parent && isNodeT t && noPreds then [tDdot]
+  else if ax == .child then rtest t
+  else if ax == .attribute then tAt :: rtest t
+  else (.axisname, axisBytes ax) :: tDcolon :: rtest t
+
+theorem astep_eq (ax : Axis) (t : Test) (ps : List Expr) : astep (.mk ax t ps) = ahead ax t ps.isEmpty ++ apreds ps := by
+  unfold astep ahead
+  split
+  · next h => simp only [Bool.and_eq_true, List.isEmpty_iff] at h; simp [h.2, apreds]
+  · split
+    · next h => simp only [Bool.and_eq_true, List.isEmpty_iff] at h; simp [h.2, apreds]
+    · split
+      · rfl
+      · split <;> simp
+
+theorem seg_ahead (ax : Axis) (t : Test) (b : Bool) (ht : testOk t = true) : Seg (some false) (ahead ax t b) (some true) := by
+  unfold ahead
+  split
+  · exact seg_dot.pre
+  · split
+    · exact seg_ddot.pre
+    · split
+      · exact seg_test_bare t ht
+      · split
+        · have e : tAt :: rtest t = [tAt] ++ rtest t := rfl
+          rw [e]; exact (seg_at.pre).append (seg_test_bare t ht) (fun b hb => hb)
+        · exact seg_step_test ax t ht
+
 /-! ### all expressions -/
 
 def postOf (e : Expr) : Option Bool := if levelOf e = 0 then none else some true
@@ -852,19 +1114,19 @@ theorem Seg.app3 {p1 q1 p2 q2 p3 q3 : Option Bool} {t1 t2 t3 : List PT} (h1 : Se
 theorem no_some {α : Type} {x : α} : ∀ b, (none : Option α) = some b → some x = some b := by intro b h; cases h
 
 /-- an operand at level `lvl` -/
-theorem seg_wrap (e : Expr) (lvl : Nat) (h1 : 1 ≤ lvl) (he : Seg (some false) (rtoks e) (postOf e)) :
-    Seg (some false) (wrap lvl e (rtoks e)) (some true) := by
+theorem seg_wrap (e : Expr) (lvl : Nat) (h1 : 1 ≤ lvl) (he : Seg (some false) (atoks e) (postOf e)) :
+    Seg (some false) (wrap lvl e (atoks e)) (some true) := by
   unfold wrap
   split
   · next hl =>
     have : postOf e = some true := by simp [postOf]; omega
     rw [this] at he; exact he
-  · have e1 : par (rtoks e) = [tPar1] ++ rtoks e ++ [tPar2] := by simp [par]
+  · have e1 : par (atoks e) = [tPar1] ++ atoks e ++ [tPar2] := by simp [par]
     rw [e1]
     exact Seg.app3 seg_par1 he.post seg_par2 (fun b hb => hb) (fun b hb => by cases hb)
 
 mutual
-theorem lxExpr : ∀ (e : Expr), wf e = true → Seg (some false) (rtoks e) (postOf e)
+theorem lxExpr : ∀ (e : Expr), wf e = true → Seg (some false) (atoks e) (postOf e)
   | .lit s, hw => by
     have : postOf (.lit s) = some true := by simp [postOf, levelOf]
     rw [this]; exact (seg_lit s hw).pre
@@ -875,18 +1137,18 @@ theorem lxExpr : ∀ (e : Expr), wf e = true → Seg (some false) (rtoks e) (pos
     have hw' : fnOk name as.length = true ∧ wfs as = true := by simpa [wf] using hw
     have : postOf (.fn name as) = some true := by simp [postOf, levelOf]
     rw [this]
-    have e1 : rtoks (.fn name as) = [(.funcname, fnBytes name), tPar1] ++ rargs false as ++ [tPar2] := by simp [rtoks]
+    have e1 : atoks (.fn name as) = [(.funcname, fnBytes name), tPar1] ++ aargs false as ++ [tPar2] := by simp [atoks]
     rw [e1]
     exact Seg.app3 (seg_fn name as.length hw'.1) (lxArgs as false hw'.2) seg_par2 (by intro b hb; simpa using hb)
       (fun b hb => by cases hb)
   | .bin op a b, hw => by
     have hw' : wf a = true ∧ wf b = true := by simpa [wf] using hw
-    have hp := LemmasParse.opLevel_pos op
+    have hp := LemmasParseA.opLevel_pos op
     have h0 : opLevel op ≠ 0 := by omega
     have : postOf (.bin op a b) = some true := by simp [postOf, levelOf, h0]
     rw [this]
-    have e1 : rtoks (.bin op a b) = wrap (opLevel op) a (rtoks a) ++ [opTok op] ++ wrap (opLevel op + 1) b (rtoks b) := by
-      simp [rtoks]
+    have e1 : atoks (.bin op a b) = wrap (opLevel op) a (atoks a) ++ [opTok op] ++ wrap (opLevel op + 1) b (atoks b) := by
+      simp [atoks]
     rw [e1]
     refine Seg.app3 (seg_wrap a _ hp.1 (lxExpr a hw'.1)) (seg_op op) (seg_wrap b _ (by omega) (lxExpr b hw'.2)) ?_
       (fun b hb => hb)
@@ -895,25 +1157,25 @@ theorem lxExpr : ∀ (e : Expr), wf e = true → Seg (some false) (rtoks e) (pos
   | .neg a, hw => by
     have : postOf (.neg a) = some true := by simp [postOf, levelOf]
     rw [this]
-    have e1 : rtoks (.neg a) = [tMinus] ++ wrap 7 a (rtoks a) := by simp [rtoks]
+    have e1 : atoks (.neg a) = [tMinus] ++ wrap 7 a (atoks a) := by simp [atoks]
     rw [e1]
     exact (seg_minus.pre).append (seg_wrap a 7 (by omega) (lxExpr a (by simpa [wf] using hw))) (fun b hb => hb)
   | .path .root [], _ => by
     have : postOf (.path .root []) = none := by simp [postOf, levelOf]
     rw [this]
-    have e1 : rtoks (.path .root []) = [tSlash] := by simp [rtoks, rsteps]
+    have e1 : atoks (.path .root []) = [tSlash] := by simp [atoks, asteps]
     rw [e1]; exact seg_slash.pre.post
   | .path .root (s :: r), hw => by
     have : postOf (.path .root (s :: r)) = some true := by simp [postOf, levelOf]
     rw [this]
-    have e1 : rtoks (.path .root (s :: r)) = [tSlash] ++ rsteps false (s :: r) := by simp [rtoks]
+    have e1 : atoks (.path .root (s :: r)) = [tSlash] ++ asteps false (s :: r) := by simp [atoks]
     rw [e1]
     exact (seg_slash.pre).append (lxSteps (s :: r) false (by simpa [wf] using hw) (by simp)) (by intro b hb; simpa using hb)
   | .path .ctx [], hw => by simp [wf] at hw
   | .path .ctx (s :: r), hw => by
     have : postOf (.path .ctx (s :: r)) = some true := by simp [postOf, levelOf]
     rw [this]
-    have e1 : rtoks (.path .ctx (s :: r)) = rsteps false (s :: r) := by simp [rtoks]
+    have e1 : atoks (.path .ctx (s :: r)) = asteps false (s :: r) := by simp [atoks]
     rw [e1]
     simpa using lxSteps (s :: r) false (by simpa [wf] using hw) (by simp)
   | .path (.expr e) [], hw => by simp [wf] at hw
@@ -921,81 +1183,79 @@ theorem lxExpr : ∀ (e : Expr), wf e = true → Seg (some false) (rtoks e) (pos
     have hw' : wf e = true ∧ wfSteps (s :: r) = true := by simpa [wf] using hw
     have : postOf (.path (.expr e) (s :: r)) = some true := by simp [postOf, levelOf]
     rw [this]
-    have e1 : rtoks (.path (.expr e) (s :: r)) = ([tPar1] ++ rtoks e ++ [tPar2]) ++ rsteps true (s :: r) := by
-      simp [rtoks, par]
+    have e1 : atoks (.path (.expr e) (s :: r)) = ([tPar1] ++ atoks e ++ [tPar2]) ++ asteps true (s :: r) := by
+      simp [atoks, par]
     rw [e1]
-    have hs : Seg none (rsteps true (s :: r)) (some true) := by simpa using lxSteps (s :: r) true hw'.2 (by simp)
+    have hs : Seg none (asteps true (s :: r)) (some true) := by simpa using lxSteps (s :: r) true hw'.2 (by simp)
     exact Seg.append (p2 := none) (Seg.app3 seg_par1 (lxExpr e hw'.1).post seg_par2 (fun b hb => hb) (fun b hb => by cases hb)) hs
       (fun b hb => by cases hb)
   | .filter e ps, hw => by
     have hw' : (ps.isEmpty = false ∧ wf e = true) ∧ wfs ps = true := by simpa [wf] using hw
     have : postOf (.filter e ps) = some true := by simp [postOf, levelOf]
     rw [this]
-    have e1 : rtoks (.filter e ps) = ([tPar1] ++ rtoks e ++ [tPar2]) ++ rpreds ps := by simp [rtoks, par]
+    have e1 : atoks (.filter e ps) = ([tPar1] ++ atoks e ++ [tPar2]) ++ apreds ps := by simp [atoks, par]
     rw [e1]
     exact Seg.append (p2 := none) (Seg.app3 seg_par1 (lxExpr e hw'.1.2).post seg_par2 (fun b hb => hb) (fun b hb => by cases hb))
       (lxPreds ps hw'.2 (by intro h; simp [h] at hw')) (fun b hb => by cases hb)
 
-theorem lxArgs : ∀ (as : List Expr) (sep : Bool), wfs as = true → Seg (if sep then none else some false) (rargs sep as) none
-  | [], sep, _ => by simpa [rargs] using (Seg.nil).pre
+theorem lxArgs : ∀ (as : List Expr) (sep : Bool), wfs as = true → Seg (if sep then none else some false) (aargs sep as) none
+  | [], sep, _ => by simpa [aargs] using (Seg.nil).pre
   | a :: r, true, hw => by
     have hw' : wf a = true ∧ wfs r = true := by simpa [wfs] using hw
-    have e1 : rargs true (a :: r) = [tComma] ++ rtoks a ++ rargs true r := by simp [rargs]
+    have e1 : aargs true (a :: r) = [tComma] ++ atoks a ++ aargs true r := by simp [aargs]
     rw [e1]
     exact Seg.app3 seg_comma (lxExpr a hw'.1).post (lxArgs r true hw'.2) (fun b hb => hb) (fun b hb => by cases hb)
   | a :: r, false, hw => by
     have hw' : wf a = true ∧ wfs r = true := by simpa [wfs] using hw
-    have e1 : rargs false (a :: r) = rtoks a ++ rargs true r := by simp [rargs]
+    have e1 : aargs false (a :: r) = atoks a ++ aargs true r := by simp [aargs]
     rw [e1]
     exact (lxExpr a hw'.1).post.append (lxArgs r true hw'.2) (fun b hb => by cases hb)
 
-theorem lxPreds : ∀ (ps : List Expr), wfs ps = true → ps ≠ [] → Seg none (rpreds ps) (some true)
+theorem lxPreds : ∀ (ps : List Expr), wfs ps = true → ps ≠ [] → Seg none (apreds ps) (some true)
   | [], _, h => absurd rfl h
   | p :: [], hw, _ => by
     have hw' : wf p = true := by simpa [wfs] using hw
-    have e1 : rpreds [p] = [tBrack1] ++ rtoks p ++ [tBrack2] := by simp [rpreds]
+    have e1 : apreds [p] = [tBrack1] ++ atoks p ++ [tBrack2] := by simp [apreds]
     rw [e1]
     exact Seg.app3 seg_brack1 (lxExpr p hw').post seg_brack2 (fun b hb => hb) (fun b hb => by cases hb)
   | p :: p2 :: r, hw, _ => by
     have hw' : wf p = true ∧ wfs (p2 :: r) = true := by simpa [wfs] using hw
-    have e1 : rpreds (p :: p2 :: r) = ([tBrack1] ++ rtoks p ++ [tBrack2]) ++ rpreds (p2 :: r) := by simp [rpreds]
+    have e1 : apreds (p :: p2 :: r) = ([tBrack1] ++ atoks p ++ [tBrack2]) ++ apreds (p2 :: r) := by simp [apreds]
     rw [e1]
     exact (Seg.app3 seg_brack1 (lxExpr p hw'.1).post seg_brack2 (fun b hb => hb) (fun b hb => by cases hb)).append
       (lxPreds (p2 :: r) hw'.2 (by simp)) (fun b hb => by cases hb)
 
 theorem lxSteps : ∀ (l : List Step) (sep : Bool), wfSteps l = true → l ≠ [] →
-    Seg (if sep then none else some false) (rsteps sep l) (some true)
+    Seg (if sep then none else some false) (asteps sep l) (some true)
   | [], _, _, h => absurd rfl h
   | s :: [], sep, hw, _ => by
     have hw' : wfStep s = true := by simpa [wfSteps] using hw
     cases sep with
     | true =>
-      have e1 : rsteps true [s] = [tSlash] ++ rstep s := by simp [rsteps]
+      have e1 : asteps true [s] = [tSlash] ++ astep s := by simp [asteps]
       rw [e1]; exact seg_slash.append (lxStep s hw') (by intro b hb; simpa using hb)
     | false =>
-      have e1 : rsteps false [s] = rstep s := by simp [rsteps]
+      have e1 : asteps false [s] = astep s := by simp [asteps]
       rw [e1]; exact lxStep s hw'
   | s :: s2 :: r, sep, hw, _ => by
     have hw' : wfStep s = true ∧ wfSteps (s2 :: r) = true := by simpa [wfSteps] using hw
     have ht := lxSteps (s2 :: r) true hw'.2 (by simp)
     cases sep with
     | true =>
-      have e1 : rsteps true (s :: s2 :: r) = [tSlash] ++ rstep s ++ rsteps true (s2 :: r) := by simp [rsteps]
+      have e1 : asteps true (s :: s2 :: r) = [tSlash] ++ astep s ++ asteps true (s2 :: r) := by simp [asteps]
       rw [e1]; exact Seg.app3 seg_slash (lxStep s hw'.1) ht (by intro b hb; simpa using hb) (fun b hb => by cases hb)
     | false =>
-      have e1 : rsteps false (s :: s2 :: r) = rstep s ++ rsteps true (s2 :: r) := by simp [rsteps]
+      have e1 : asteps false (s :: s2 :: r) = astep s ++ asteps true (s2 :: r) := by simp [asteps]
       rw [e1]; exact (lxStep s hw'.1).append ht (fun b hb => by cases hb)
 
-theorem lxStep : ∀ (s : Step), wfStep s = true → Seg (some false) (rstep s) (some true)
+theorem lxStep : ∀ (s : Step), wfStep s = true → Seg (some false) (astep s) (some true)
   | .mk ax t [], hw => by
     have hw' : testOk t = true := by simpa [wfStep, wfs] using hw
-    have e1 : rstep (.mk ax t []) = (.axisname, axisBytes ax) :: tDcolon :: rtest t := by simp [rstep, rpreds]
-    rw [e1]; exact seg_step_test ax t hw'
+    rw [astep_eq]; simpa [apreds] using seg_ahead ax t true hw'
   | .mk ax t (p :: r), hw => by
     have hw' : testOk t = true ∧ wfs (p :: r) = true := by simpa [wfStep] using hw
-    have e1 : rstep (.mk ax t (p :: r)) = ((.axisname, axisBytes ax) :: tDcolon :: rtest t) ++ rpreds (p :: r) := by
-      simp [rstep]
-    rw [e1]; exact (seg_step_test ax t hw'.1).append (lxPreds (p :: r) hw'.2 (by simp)) (fun b hb => by cases hb)
+    rw [astep_eq]
+    exact (seg_ahead ax t _ hw'.1).append (lxPreds (p :: r) hw'.2 (by simp)) (fun b hb => by cases hb)
 end
 
 theorem reach_from_nil {a c : St} (h : Reach a c) (ha : a.rest = []) : c = a := by
@@ -1007,49 +1267,40 @@ theorem reach_from_nil {a c : St} (h : Reach a c) (ha : a.rest = []) : c = a := 
     rw [hp] at hs; cases hs
 
 /-- the tokenizer on the text of `e` written with ANY non-empty blank strings between the tokens, after any amount of
-leading white space, stores exactly the tokens of `rtoks e` (kinds and texts) -/
+leading white space, stores exactly the tokens of `atoks e` (kinds and texts) -/
 theorem lex_renderW_lead (e : Expr) (hw : wf e = true) (bs : List Bytes) (hb : Blanks bs) (lead : Bytes)
     (hl : ∀ c ∈ lead, Path.isWs c = true) :
-    (lex (lead ++ renderW bs e)).toOption.map (·.map ptOf) = some (rtoks e) := by
+    (lex (lead ++ renderAW bs e)).toOption.map (·.map ptOf) = some (atoks e) := by
   obtain ⟨hnw, hseg⟩ := lxExpr e hw
-  let st0 : St := { acc := [], ntype := false, func := false, pos := lead.length, rest := renderW bs e }
-  obtain ⟨st', hreach, hrest, hacc, _⟩ := hseg st0 bs [] hb (by simp [st0, renderW]) NW.nil (by intro b hb; cases hb; rfl)
-  have htoks : rtoks e ≠ [] := by
-    obtain ⟨k, hk1, _, _⟩ := LemmasParse.head_ok e hw []
-    obtain ⟨tx, r, hr⟩ := LemmasParse.hk_some hk1
+  let st0 : St := { acc := [], ntype := false, func := false, pos := lead.length, rest := renderAW bs e }
+  obtain ⟨st', hreach, hrest, hacc, _⟩ := hseg st0 bs [] hb (by simp [st0, renderAW]) NW.nil (by intro b hb; cases hb; rfl)
+  have htoks : atoks e ≠ [] := by
+    obtain ⟨k, hk1, _, _⟩ := LemmasParseA.head_ok e hw []
+    obtain ⟨tx, r, hr⟩ := LemmasParseA.hk_some hk1
     intro h; rw [h] at hr; simp at hr
-  have hne : renderW bs e ≠ [] := by
+  have hne : renderAW bs e ≠ [] := by
     intro h
     have := reach_from_nil hreach (by simp [st0, h])
     rw [this] at hacc
     simp [st0] at hacc
     exact htoks hacc
-  have hnws : wsLen (renderW bs e) = 0 := by
+  have hnws : wsLen (renderAW bs e) = 0 := by
     have := hnw bs [] hb NW.nil
-    simpa [renderW, NW] using this
-  have hinit : St.skipWs { acc := [], ntype := false, func := false, pos := 0, rest := lead ++ renderW bs e } = st0 := by
+    simpa [renderAW] using this.1
+  have hinit : St.skipWs { acc := [], ntype := false, func := false, pos := 0, rest := lead ++ renderAW bs e } = st0 := by
     simp [St.skipWs, wsLen_lead lead _ hl hnws, st0]
-  have hlex : lex (lead ++ renderW bs e) = lexLoop ((lead ++ renderW bs e).length + 1) st0 := by
+  have hlex : lex (lead ++ renderAW bs e) = lexLoop ((lead ++ renderAW bs e).length + 1) st0 := by
     unfold lex
-    have : (lead ++ renderW bs e).isEmpty = false := by
-      cases h : lead ++ renderW bs e with
+    have : (lead ++ renderAW bs e).isEmpty = false := by
+      cases h : lead ++ renderAW bs e with
       | nil => simp at h; exact absurd h.2 hne
       | cons _ _ => rfl
     simp only [this, Bool.false_eq_true, if_false, hinit]
-  have hnf := lex_no_fuel (lead ++ renderW bs e)
-  rcases lexLoop_of_reach hreach hrest (by simpa [st0] using hne) ((lead ++ renderW bs e).length + 1) with h | h
+  have hnf := lex_no_fuel (lead ++ renderAW bs e)
+  rcases lexLoop_of_reach hreach hrest (by simpa [st0] using hne) ((lead ++ renderAW bs e).length + 1) with h | h
   · rw [hlex, h]
     simp only [Except.toOption, Option.map_some, List.map_reverse, hacc]
     simp [st0]
   · rw [hlex] at hnf; exact absurd h hnf
 
-theorem renderW_nil (e : Expr) : renderW [] e = render e := by simp [renderW, render, detokW_nil]
-
-theorem lex_render_lead (e : Expr) (hw : wf e = true) (lead : Bytes) (hl : ∀ c ∈ lead, Path.isWs c = true) :
-    (lex (lead ++ render e)).toOption.map (·.map ptOf) = some (rtoks e) := by
-  rw [← renderW_nil]; exact lex_renderW_lead e hw [] (by intro b hb; cases hb) lead hl
-
-theorem lex_render (e : Expr) (hw : wf e = true) : (lex (render e)).toOption.map (·.map ptOf) = some (rtoks e) := by
-  simpa using lex_render_lead e hw [] (by intro c hc; cases hc)
-
-end LyModel.XPath.LemmasLexRt
+end LyModel.XPath.LemmasLexRtA
